@@ -1376,3 +1376,115 @@ def vc_only_nodes(prog, allow_jumps=False, walk=False):
     rep = verify_function(prog, fv, setup, goals, models=dict(K.base_models()), hooks=hooks, loops=loops, raises_ok=raises_ok,
                           name=f"BaseMatcher.node_path_to_only_nodes[{'jumps allowed' if allow_jumps else 'no jumps'}{', walk' if walk else ''}]")
     return fv, rep
+
+
+# ============================================================================================ BaseMatcher.get_path + the two properties
+def vc_get_path(prog, only_nodes=True, only_closest=True, stored='states'):
+    """BaseMatcher.get_path (C04: the nodes-only view a user reads, `path_pred_onlynodes`): with only_nodes=False the stored state
+    sequence itself; without a match (None / empty) the empty list; otherwise exactly ONE call of node_path_to_only_nodes on the
+    STORED state sequence with the caller's allow_jumps, whose list is returned; the only edit of that list: with only_closest the
+    FIRST node is dropped iff the first matched position lies beyond the middle of its edge (ti > 0.5) - nothing else is removed,
+    the stored sequence and the best path are not written.  node_path_to_only_nodes is a callee contract here (proved for its own
+    body in vc_only_nodes)."""
+    fv = prog.func(K.BASE, 'BaseMatcher.get_path')
+    st = {}
+    aj = B('allow_jumps')
+
+    def setup(ctx, it):
+        st.clear()
+        m = K.mk_matcher('BaseMatcher')
+        seq = {'none': None, 'empty': [], 'states': Obj('StateSeq')}[stored]
+        m.f['node_path'] = seq
+        # the first matched state is a node (a point segment: relative position 0 by the real Segment.ti) or an edge with a projection
+        node_first = ctx.choice(2, 'first-state-is-a-node') == 1
+        seg = K.mk_segment('first', node_first, with_proj=True)
+        first = Obj('Entry', edge_m=seg)
+        m.f['lattice_best'] = Obj('BestList', first=first)
+        st['ti'] = z3.RealVal(0) if node_first else seg.f['_ti']
+        ctx.assume(st['ti'] >= 0, st['ti'] <= 1)
+        st.update(m=m, seq=seq, calls=[], pops=[], pre=dict(m.f))
+        return [m], {'only_nodes': only_nodes, 'allow_jumps': aj, 'only_closest': only_closest}
+
+    def c_only_nodes(it, fv_, args, kw):
+        b = {'allow_jumps': False}
+        b.update(dict(zip(('path', 'allow_jumps'), args[1:])))
+        b.update(kw)
+        st['calls'].append((args[0], b))
+        st['res'] = Obj('NodeList')
+        return st['res']
+
+    def m_pop(it, o, *a):
+        st['pops'].append((o, a))
+        return it.ctx.fresh('popped', Label)
+
+    def h_index_best(it, o, i):
+        if z3.is_true(z3.simplify(to_z3(i) == 0)):
+            return o.f['first']
+        # any other entry of the best path: an entry of its own, with a relative position of its own
+        key = z3.simplify(to_z3(i)).sexpr()
+        if key not in o.f.setdefault('others', {}):
+            o.f['others'][key] = Obj('Entry', edge_m=K.mk_segment('other' + str(len(o.f['others'])), False, with_proj=True))
+        return o.f['others'][key]
+    models = dict(K.base_models())
+    models[('meth', 'NodeList', 'pop')] = Model('list.pop', m_pop)
+    hooks = {('len', 'StateSeq'): lambda it, o: (lambda v: (it.ctx.assume(v >= 1), v)[1])(it.ctx.fresh('len_states', 'I')), ('index', 'BestList'): h_index_best}
+
+    def goals(ctx, res):
+        m, calls, pops = st['m'], st['calls'], st['pops']
+        g = [('get-path:stored-sequence-and-best-path-not-written', b2z(all(k in m.f and m.f[k] is st['pre'][k] for k in st['pre'])))]
+        if not only_nodes:
+            g.append(('get-path:all-states-is-the-stored-sequence', b2z(res is st['seq'] and not calls and not pops)))
+            return g
+        if stored != 'states':
+            g.append(('get-path:no-match-gives-the-empty-list', b2z(isinstance(res, list) and len(res) == 0 and not calls and not pops)))
+            return g
+        g.append(('get-path:one-conversion-of-the-stored-sequence', b2z(len(calls) == 1 and calls[0][0] is m and calls[0][1].get('path') is st['seq'])))
+        g.append(('get-path:jump-permission-is-the-callers', b2z(len(calls) == 1 and calls[0][1].get('allow_jumps') is aj and set(calls[0][1]) == {'path', 'allow_jumps'})))
+        g.append(('get-path:result-is-the-converted-list', b2z(res is st.get('res'))))
+        if only_closest:
+            ok_shape = all(o is st.get('res') and len(a) == 1 and z3.is_true(z3.simplify(to_z3(a[0]) == 0)) for o, a in pops) and len(pops) <= 1
+            g.append(('get-path:only-the-first-node-may-be-dropped', b2z(ok_shape)))
+            # what C04 needs: whatever is dropped is dropped at an END of the converted list (a contiguous part of a pairwise
+            # adjacent sequence is pairwise adjacent); which end and when is the stricter pair of clauses around this one
+            at_end = lambda a: len(a) == 0 or (len(a) == 1 and (z3.is_true(z3.simplify(to_z3(a[0]) == 0)) or z3.is_true(z3.simplify(to_z3(a[0]) == -1))))
+            g.append(('get-path:nodes-are-dropped-only-at-the-ends-of-the-converted-list', b2z(all(o is st.get('res') and at_end(a) for o, a in pops))))
+            g.append(('get-path:first-node-dropped-iff-the-first-match-lies-beyond-the-middle-of-its-edge', (st['ti'] > 0.5) if len(pops) == 1 else z3.Not(st['ti'] > 0.5)))
+        else:
+            g.append(('get-path:nothing-dropped-without-only_closest', b2z(not pops)))
+        return g
+    rep = verify_function(prog, fv, setup, goals, models=models, hooks=hooks, contracts={'BaseMatcher.node_path_to_only_nodes': c_only_nodes},
+                          name=f"BaseMatcher.get_path[only_nodes={only_nodes}, only_closest={only_closest}, stored={stored}]")
+    return fv, rep
+
+
+def vc_path_pred_props(prog, withjumps=False):
+    """The properties path_pred_onlynodes / path_pred_onlynodes_withjumps: get_path(only_nodes=True) with allow_jumps False / True
+    and the default only_closest; the result is handed on unchanged."""
+    nm = 'path_pred_onlynodes_withjumps' if withjumps else 'path_pred_onlynodes'
+    fv = prog.func(K.BASE, 'BaseMatcher.' + nm)
+    st = {}
+
+    def setup(ctx, it):
+        st.clear()
+        m = K.mk_matcher('BaseMatcher')
+        st.update(m=m, calls=[], pre=dict(m.f))
+        return [m], {}
+
+    def c_get_path(it, fv_, args, kw):
+        b = {'only_nodes': True, 'allow_jumps': False, 'only_closest': True}
+        b.update(dict(zip(('only_nodes', 'allow_jumps', 'only_closest'), args[1:])))
+        b.update(kw)
+        st['calls'].append((args[0], b))
+        st['res'] = Obj('NodeList')
+        return st['res']
+
+    def goals(ctx, res):
+        c = st['calls']
+        ok = len(c) == 1 and c[0][0] is st['m'] and c[0][1].get('only_nodes') is True and set(c[0][1]) == {'only_nodes', 'allow_jumps', 'only_closest'}
+        okj = len(c) == 1 and c[0][1].get('allow_jumps') is withjumps and c[0][1].get('only_closest') is True
+        return [('get-path:property-is-one-nodes-only-view-of-this-matcher', b2z(ok)),
+                ('get-path:jump-permission-of-the-property-' + ('jumps-allowed' if withjumps else 'no-jumps'), b2z(okj)),
+                ('get-path:property-hands-the-list-on', b2z(res is st.get('res'))),
+                ('get-path:property-writes-nothing', b2z(all(k in st['m'].f and st['m'].f[k] is st['pre'][k] for k in st['pre'])))]
+    rep = verify_function(prog, fv, setup, goals, models=dict(K.base_models()), contracts={'BaseMatcher.get_path': c_get_path}, name=f"BaseMatcher.{nm}")
+    return fv, rep
